@@ -479,8 +479,10 @@ kll_sketch<T, C, A> kll_sketch<T, C, A>::deserialize(std::istream& is, const Ser
   } else {
     // the last integer in levels_ is not serialized because it can be derived
     read(is, levels.data(), sizeof(levels[0]) * num_levels);
+    if (!is.good()) throw std::runtime_error("error reading from std::istream");
   }
   levels[num_levels] = capacity;
+  check_levels(levels, num_levels);
   optional<T> tmp; // space to deserialize min and max
   optional<T> min_item;
   optional<T> max_item;
@@ -562,9 +564,11 @@ kll_sketch<T, C, A> kll_sketch<T, C, A>::deserialize(const void* bytes, size_t s
     levels[0] = capacity - 1;
   } else {
     // the last integer in levels_ is not serialized because it can be derived
+    ensure_minimum_memory(end_ptr - ptr, sizeof(levels[0]) * num_levels);
     ptr += copy_from_mem(ptr, levels.data(), sizeof(levels[0]) * num_levels);
   }
   levels[num_levels] = capacity;
+  check_levels(levels, num_levels);
   optional<T> tmp; // space to deserialize min and max
   optional<T> min_item;
   optional<T> max_item;
@@ -889,6 +893,18 @@ void kll_sketch<T, C, A>::check_serial_version(uint8_t serial_version) {
     throw std::invalid_argument("Possible corruption: serial version mismatch: expected "
         + std::to_string(SERIAL_VERSION_1) + " or " + std::to_string(SERIAL_VERSION_2)
         + ", got " + std::to_string(serial_version));
+  }
+}
+
+template<typename T, typename C, typename A>
+void kll_sketch<T, C, A>::check_levels(const vector_u32& levels, uint8_t num_levels) {
+  // level boundaries must be ascending and end at the capacity implied by k, m and num_levels
+  if (num_levels == 0) throw std::invalid_argument("Possible corruption: number of levels must not be 0");
+  for (uint8_t i = 0; i < num_levels; ++i) {
+    if (levels[i] > levels[i + 1]) {
+      throw std::invalid_argument("Possible corruption: level boundaries must be ascending and within capacity: level "
+          + std::to_string(i) + " starts at " + std::to_string(levels[i]) + ", next boundary " + std::to_string(levels[i + 1]));
+    }
   }
 }
 
